@@ -1,5 +1,6 @@
 """C08 -- terminate() and termination signals always end workers promptly.  Pool family: theorems over Model/Pool.v (Props/C08.v), tied to
 billiard/pool.py by differential correspondence on fake-process histories."""
+import json
 from vlib import core
 from props import poolcommon as pc
 from props import C03 as worker
@@ -17,6 +18,30 @@ REAL_QUICK = [{'kind': 'terminate', 'state': 'lazy_imap', 'n': 2}, {'kind': 'ter
 REAL_THOROUGH = [{'kind': 'terminate', 'state': 'lazy_imap', 'n': 2}, {'kind': 'terminate', 'state': 'lazy_imap', 'n': 1}, {'kind': 'terminate', 'state': 'lazy_imap', 'n': 4}, {'kind': 'terminate', 'state': 'busy', 'n': 2, 'job_limit': 60}, {'kind': 'terminate', 'state': 'idle', 'n': 1, 'job_soft': 30}, {'kind': 'terminate', 'state': 'handler', 'n': 2, 'hard': 60}, {'kind': 'terminate', 'state': 'idle', 'n': 1, 'hard': 60, 'job_soft': 30}, {'kind': 'terminate', 'state': 'busy', 'n': 2, 'maxtasks': 1, 'queued': 1}, {'kind': 'terminate', 'state': 'idle', 'n': 2, 'maxtasks': 1}, {'kind': 'terminate', 'state': 'handler', 'n': 3, 'maxtasks': 2, 'queued': 2}, {'kind': 'terminate', 'state': 'lock_lost', 'n': 2, 'jobs': 1}, {'kind': 'terminate', 'state': 'lock_lost', 'n': 2, 'jobs': 2, 'queued': 2}, {'kind': 'terminate_after_signal', 'n': 2, 'sig': 10}, {'kind': 'terminate_after_signal', 'n': 1, 'sig': 10}, {'kind': 'terminate_after_signal', 'n': 2, 'sig': 2}, {'kind': 'terminate', 'state': 'idle', 'n': 1, 'queued': 0}, {'kind': 'terminate', 'state': 'idle', 'n': 1, 'queued': 5}, {'kind': 'terminate', 'state': 'idle', 'n': 2, 'queued': 0}, {'kind': 'terminate', 'state': 'idle', 'n': 2, 'queued': 5}, {'kind': 'terminate', 'state': 'idle', 'n': 4, 'queued': 0}, {'kind': 'terminate', 'state': 'idle', 'n': 4, 'queued': 5}, {'kind': 'terminate', 'state': 'busy', 'n': 1, 'queued': 0}, {'kind': 'terminate', 'state': 'busy', 'n': 1, 'queued': 5}, {'kind': 'terminate', 'state': 'busy', 'n': 2, 'queued': 0}, {'kind': 'terminate', 'state': 'busy', 'n': 2, 'queued': 5}, {'kind': 'terminate', 'state': 'busy', 'n': 4, 'queued': 0}, {'kind': 'terminate', 'state': 'busy', 'n': 4, 'queued': 5}, {'kind': 'terminate', 'state': 'handler', 'n': 1, 'queued': 0}, {'kind': 'terminate', 'state': 'handler', 'n': 1, 'queued': 5}, {'kind': 'terminate', 'state': 'handler', 'n': 2, 'queued': 0}, {'kind': 'terminate', 'state': 'handler', 'n': 2, 'queued': 5}, {'kind': 'terminate', 'state': 'handler', 'n': 4, 'queued': 0}, {'kind': 'terminate', 'state': 'handler', 'n': 4, 'queued': 5}]
 
 
+def term_in_put(res):
+    """the termination signal lands INSIDE the put of a result (slow to pickle, full pipe, waiting for the
+    write lock): the unsent result is not counted, so the exiting worker does not wait out the 30 s
+    consumed-messages guard for an acknowledgement that cannot come.  Real Worker.workloop over the scripted
+    queues of harness/worker_driver.py; judged on its own observation (not part of the worker model)."""
+    cases = []
+    for k in (1, 2, 3):
+        ins = [['msg', 2, 10 + q, None, 100 + q, ['ret', q], [], 0, 0] for q in range(3)]
+        cases.append(dict(kind='w', maxtasks=None, synfd=None, inqfd=7, pid=77, ospid=4242, maxmem=None,
+                          counter=dict(reads=[], dflt=10 ** 6), ins=ins, term_in_put=k))
+    outs = core.run_driver('worker_driver.py', cases, timeout=120)
+    for c, o in zip(cases, outs):
+        sent = sum(1 for e in o['log'] if e[0] == 'put' and e[1] == 1)     # READY messages really sent
+        if o.get('completed') is None:
+            res.alarms.append(dict(signature='C08:worker-did-not-leave-the-loop-when-terminated-inside-put',
+                                   what='termination inside the put of result %d: %s' % (c['term_in_put'], json.dumps(o)[:300]), replay=dict(case=c, impl=o)))
+        elif o['completed'] != sent:
+            res.alarms.append(dict(signature='C08:unsent-result-counted-exiting-worker-waits-out-the-guard',
+                                   what='the termination signal lands inside the put of result %d: %d results were sent, the exiting worker waits for %d '
+                                        'to be acknowledged (up to 30 s, with SIGTERM back at its default action)' % (c['term_in_put'], sent, o['completed']),
+                                   replay=dict(case=c, impl=o)))
+    res.add_cov(evaluations=len(cases), traces=len(cases), term_in_put_cases=len(cases))
+
+
 def run(res):
     res.proof_step('Props/C08.v', extra_targets=['Model/Pool.vo', 'Model/Worker.vo'], kernels_needed=['K_worker', 'G_pool_shape', 'G_pool_pins'])
     n = 150 if res.tier == 'quick' else 6000
@@ -24,6 +49,7 @@ def run(res):
         n = max(n, 1500)      # failing-input search on the implementation
     pc.pool_check(res, 'C08', n, focus=FOCUS)
     pc.real_scenarios(res, 'C08', REAL_QUICK if res.tier == 'quick' else REAL_THOROUGH)
+    term_in_put(res)
     # worker side: the real Worker.workloop against the worker model the C08 theorems are about
     # (termination requests inside tasks are part of the generated scripts)
     before = len(res.alarms)
@@ -48,4 +74,11 @@ def pc_assumptions():
 
 
 def replay(path):
+    d = json.load(open(path))
+    c = (d.get('replay') or {}).get('case') or {}
+    if c.get('kind') == 'w' and 'term_in_put' in c:
+        o = core.run_driver('worker_driver.py', [c], timeout=120)[0]
+        sent = sum(1 for e in o['log'] if e[0] == 'put' and e[1] == 1)
+        print('results sent: %d; the exiting worker waits for %s' % (sent, o.get('completed')))
+        return 0 if o.get('completed') == sent else 1
     return pc.pool_replay(path)
